@@ -180,14 +180,14 @@ def lit_stepcase(rec, tab):
     out = 'None'
     if rec.get('mol') is not None:
         out = '(Some (%s, %s))' % (tab.fgs(rec['fgs']), tab.graph(rec['mol']))
-    return ('{| sc_legacy := %s; sc_aa := %s; sc_prev := %s; sc_fd := %s; sc_tr := %s; sc_m2 := %s; sc_m5 := %s; '
+    return ('{| sc_legacy := %s; sc_aa := %s; sc_prev := %s; sc_fd := %s; sc_tr := %s; sc_car := %s; sc_m2 := %s; sc_m5 := %s; '
             'sc_out := %s; sc_stage := %s; sc_exc := %s |}'
             % (lit.b(rec['legacy']), lit.b(rec['aa']), tab.graph(rec['prev']), tab.fd(rec['fd']), tr,
-               lit_opt(rec.get('m2'), tab.graph), lit_opt(rec.get('m5'), tab.graph), out,
+               lit_opt(rec.get('car'), tab.graph), lit_opt(rec.get('m2'), tab.graph), lit_opt(rec.get('m5'), tab.graph), out,
                lit.nat(rec['stage']), tab.s(rec.get('exc') or '')))
 
 
-TRIVIAL_STEP = ('{| sc_legacy := true; sc_aa := false; sc_prev := []; sc_fd := []; sc_tr := no_transcript; '
+TRIVIAL_STEP = ('{| sc_legacy := true; sc_aa := false; sc_prev := []; sc_fd := []; sc_tr := no_transcript; sc_car := None; '
                 'sc_m2 := Some []; sc_m5 := Some []; sc_out := Some ([], []); sc_stage := 0%nat; sc_exc := [] |}')
 
 HEADER = ('From Coq Require Import String.\nFrom Coq Require Import List Ascii ZArith Bool.\n'
@@ -246,7 +246,19 @@ def record_resolve(resolver):
 
     def w_hyd(mol, *a, **kw):
         enter(4)
-        r = saved_mod['rebuild_h_atoms'](mol, *a, **kw)
+        import pysmiles
+        helper = pysmiles.smiles_helper
+        orig_car = helper.correct_aromatic_rings
+
+        def car(m, *aa, **kk):
+            r = orig_car(m, *aa, **kk)          # a SyntaxError leaves rec['car'] unset (= None)
+            rec['car'] = enc_graph(m)
+            return r
+        helper.correct_aromatic_rings = car
+        try:
+            r = saved_mod['rebuild_h_atoms'](mol, *a, **kw)
+        finally:
+            helper.correct_aromatic_rings = orig_car
         rec['tr_hyd'] = enc_graph(mol)
         return r
 
